@@ -309,6 +309,7 @@ remove_ind.ensures_rt = [
 
 # ------------------------------------------------------ reset_contraction_indices
 KEEP4 = " and ".join(f"('{k}' in self.info[n]) == old('{k}' in self.info[n])" for k in ("legs", "involved", "size", "flops"))
+SAME4 = " and ".join(f"implies('{k}' in self.info[n], self.info[n]['{k}'] == {OI}['{k}'])" for k in ("legs", "involved", "size", "flops"))
 reset = Contract(
     target="cotengra.core:ContractionTree.reset_contraction_indices",
     props=["C02"],
@@ -320,7 +321,7 @@ reset = Contract(
     loops={0: Loop(seen="S", inv=[
         "keys(self.info) == old(keys(self.info))",
         "forall(S, lambda n: " + NOREC5 + ")",
-        "forall(keys(self.info), lambda n: self.info[n]['legs'] == " + OI + "['legs'] and self.info[n]['involved'] == " + OI + "['involved'] and self.info[n]['size'] == " + OI + "['size'] and self.info[n]['flops'] == " + OI + "['flops'] and " + KEEP4 + ")",
+        "forall(keys(self.info), lambda n: " + KEEP4 + " and " + SAME4 + ")",
         "forall(keys(self.info), lambda n: implies(not (n in self.children), self.info[n] == " + OI + "))",
     ])},
     ensures=[
@@ -328,7 +329,7 @@ reset = Contract(
         # every intermediate node forgets its explicit index order and every recipe derived from it
         "forall(keys(self.children), lambda n: " + NOREC5 + ")",
         # the cached figures stay
-        "forall(keys(self.info), lambda n: self.info[n]['legs'] == " + OI + "['legs'] and self.info[n]['involved'] == " + OI + "['involved'] and self.info[n]['size'] == " + OI + "['size'] and self.info[n]['flops'] == " + OI + "['flops'] and " + KEEP4 + ")",
+        "forall(keys(self.info), lambda n: " + KEEP4 + " and " + SAME4 + ")",
         "forall(keys(self.info), lambda n: implies(not (n in self.children), self.info[n] == " + OI + "))",
         "keys(self.contraction_cores) == empty()",
     ],
